@@ -116,9 +116,17 @@ func (f *Formatter) formatBackendProperties(props []*ast.BackendProperty, nestLe
 			Operator: " = ",
 		}
 		if po, ok := prop.Value.(*ast.BackendProbeObject); ok {
-			line.Value = "{\n"
+			// comments around the probe object: `.probe = <comment> { ... <comment> } <comment>`
+			if v := f.formatComment(po.Leading, " ", 0); v != "" {
+				line.Value = v
+			}
+			line.Value += "{\n"
 			line.Value += f.formatBackendProperties(po.Values, nestLevel+1)
+			if len(po.Infix) > 0 {
+				line.Value += f.formatComment(po.Infix, "\n", nestLevel+1)
+			}
 			line.Value += f.indent(nestLevel) + "}"
+			line.Trailing = f.trailing(po.Trailing)
 			// probe property is object, semicolon is not needed
 			line.isObject = true
 		} else {
